@@ -201,10 +201,13 @@ def yaml_correspondence(rmodel, facts, res, deplog_names, mism, stats):
             cur = [(n, site)]
             segs.append(cur)
         elif cur is not None and site in ("ConfigData::SaveToStream:emitted-unflushed", "ConfigData::SaveToFile:written",
-                                          "ConfigData::SaveToFile:renamed"):
+                                          "ConfigData::SaveToFile:renamed", "SaveOutputPlugin:written", "SaveOutputPlugin:renamed"):
             cur.append((n, site))
             if site.endswith("renamed"):
                 cur = None
+    # only the saves that were followed by a rename are compiled configs (user.yaml is written in place)
+    if any(s.endswith("renamed") for _, s in pts):
+        segs = [sg for sg in segs if any(s.endswith("renamed") for _, s in sg)]
     queries, meta = [], []
     for seg, name in zip(segs, deplog_names):
         size = res["final_sizes"].get(name)
